@@ -94,6 +94,21 @@ def _const_truth(e):
         return None
 
 
+class _Retag(ast.NodeTransformer):
+    def __init__(self, names, tag):
+        self.names, self.tag = names, tag
+
+    def visit_Name(self, n):
+        if n.id in self.names:
+            return ast.Name(id="%s@%s" % (n.id, self.tag), ctx=ast.Load())
+        return n
+
+
+def _retag(e, names, tag):
+    """`y` -> `y@tag`: the value local y had when local `tag` was defined."""
+    return _Retag(names, tag).visit(copy.deepcopy(e))
+
+
 class Expander:
     LIMIT = 20000
 
@@ -166,14 +181,18 @@ class Expander:
         avoid = {n for n, _ in self.writes(name)} - {nid}
         if nid not in cfg.reach({wn}, avoid=avoid, skip_labels=("back",)):
             return False
-        # none of the locals the value mentions may be rebound in between
+        return True
+
+    def _stale(self, name, st, value, between, nid):
+        """Locals mentioned by a definition's value that are rebound between the
+        definition and the use: their definition-time value gets its own atom."""
+        out = set()
         for y in names_in(value):
             if y == name and isinstance(st, ast.AugAssign):
                 continue
-            for yn, _ in self.writes(y):
-                if yn in between and yn != nid:
-                    return False
-        return True
+            if any(yn in between and yn != nid for yn, _ in self.writes(y)):
+                out.add(y)
+        return out
 
     def _path_conditions(self, name, wn, between, nid):
         cfg = self.cfg
@@ -296,6 +315,9 @@ class Expander:
                 else:
                     calts = [()]
                 vals = self.expand(v, wn, depth + 1)
+                stale = self._stale(e.id, st, v, btw, nid)
+                if stale:
+                    vals = [(_retag(v2, stale, e.id), tuple((_retag(t, stale, e.id), pol) for t, pol in c2)) for v2, c2 in vals]
             finally:
                 self._active.discard(key)
             for c in calts:
